@@ -43,7 +43,6 @@ class Interp(object):
     # ---- classes
     def classes_of(self, e, env):
         """Qualified class names denoted by a class expression / tuple / module constant / row field."""
-        v = self.ev(e, env) if not isinstance(e, (ast.Tuple, ast.Name, ast.Attribute)) else None
         if isinstance(e, ast.Tuple):
             out = []
             for x in e.elts:
@@ -55,6 +54,8 @@ class Interp(object):
             kind, obj = self.idx.resolve_name(self.fi.module, e.id)
             if kind == 'class':
                 return [obj.qualname]
+            if kind == 'builtin' and e.id in ('Exception', 'BaseException'):
+                return ['Exception']        # covers every library error class
             if kind == 'value':
                 mod, nm = obj
                 vals = mod.assigns.get(nm, [])
@@ -66,9 +67,16 @@ class Interp(object):
             if isinstance(base, Row) and e.attr in base.fields:
                 return self.classes_of(base.fields[e.attr], env)
             raise Unknown('class expression %s' % unparse(e))
+        if isinstance(e, ast.Subscript):
+            base = self.ev(e.value, env)
+            k = self.ev(e.slice, env)
+            if isinstance(base, Row) and k in base.fields:
+                return self.classes_of(base.fields[k], env)
         raise Unknown('class expression %s' % unparse(e))
 
     def isinstance_(self, qual, quals):
+        if 'Exception' in quals:
+            return True
         ci = self.idx.classes.get(qual)
         return ci is not None and any(q in ci.mro for q in quals)
 
@@ -96,6 +104,9 @@ class Interp(object):
         if isinstance(e, ast.Subscript):
             base = self.ev(e.value, env)
             key = self.ev(e.slice, env)
+            if isinstance(base, Row) and key in base.fields:
+                f = base.fields[key]
+                return f if isinstance(f, ast.Lambda) else self.ev(f, {})
             if isinstance(base, Cfg) and key in base.d:
                 v = base.d[key]
                 return Cfg(v) if isinstance(v, dict) else v
@@ -140,7 +151,7 @@ class Interp(object):
                     if all(self.truth(self.ev(c, e2)) for c in g.ifs):
                         return self.ev(e.args[0].elt, e2)
                 return self.ev(e.args[1], env)
-            if isinstance(e.func, ast.Attribute):
+            if isinstance(e.func, (ast.Attribute, ast.Name, ast.Subscript)):
                 f = self.ev(e.func, env)
                 if isinstance(f, ast.Lambda) and len(f.args.args) == len(e.args) and not e.keywords:
                     return self.ev(f.body, dict(zip([a.arg for a in f.args.args], [self.ev(a, env) for a in e.args])))
@@ -151,6 +162,8 @@ class Interp(object):
         if isinstance(v, (ast.Tuple, ast.List)) and all(isinstance(r, ast.Call) and not r.args and all(k.arg for k in r.keywords)
                                                           for r in v.elts):
             return [Row({k.arg: k.value for k in r.keywords}) for r in v.elts]
+        if isinstance(v, (ast.Tuple, ast.List)) and v.elts and all(isinstance(r, (ast.Tuple, ast.List)) for r in v.elts):
+            return [Row({i: x for i, x in enumerate(r.elts)}) for r in v.elts]          # positional rows
         raise Unknown('class attribute is not a table of keyword rows')
 
     @staticmethod
@@ -171,6 +184,15 @@ class Interp(object):
             if isinstance(s, ast.Assign) and len(s.targets) == 1 and isinstance(s.targets[0], ast.Name):
                 env[s.targets[0].id] = self.ev(s.value, env)
                 continue
+            if isinstance(s, ast.Assign) and len(s.targets) == 1 and isinstance(s.targets[0], ast.Tuple) \
+                    and all(isinstance(t, ast.Name) for t in s.targets[0].elts):
+                row = self.ev(s.value, env)
+                if isinstance(row, Row) and all(i in row.fields for i in range(len(s.targets[0].elts))):
+                    for i, t in enumerate(s.targets[0].elts):
+                        f = row.fields[i]
+                        env[t.id] = f if isinstance(f, ast.Lambda) else (self.classes_of(f, {}) if i == 0 else self.ev(f, {}))
+                    continue
+                raise Unknown('tuple assignment')
             if isinstance(s, ast.If):
                 out = self.run(s.body if self.truth(self.ev(s.test, env)) else s.orelse, env)
                 if out is not None:
